@@ -125,7 +125,8 @@ def c11_static(task):
     # (b) no store into parameters `data`, `additional_data`, `strategy`, `universe`
     INPLACE = {"fillna", "dropna", "sort_index", "sort_values", "drop", "rename", "update", "pop", "clear", "setdefault", "append", "extend", "insert", "remove", "__setitem__", "iloc", "loc", "at", "iat"}
     for q, params in (("bt.backtest.Backtest.__init__", ["strategy", "data", "additional_data"]), ("bt.backtest.Backtest._process_data", ["data", "additional_data"]),
-                      ("bt.core.StrategyBase.setup", ["universe"]), ("bt.core.SecurityBase.setup", ["universe"]), ("bt.core.CouponPayingSecurity.setup", ["universe"])):
+                      ("bt.core.StrategyBase.setup", ["universe"]), ("bt.core.SecurityBase.setup", ["universe"]), ("bt.core.CouponPayingSecurity.setup", ["universe"]),
+                      ("bt.backtest.benchmark_random", ["random_strategy"])):      # a helper that builds backtests from the caller's template (renamed it before fix f39edfb)
         fn = prog.func(q).node
         bad = []
         FRESH = {"copy", "deepcopy", "concat", "DataFrame", "Series", "dict", "list", "reindex", "astype"}
@@ -135,6 +136,8 @@ def c11_static(task):
             if isinstance(x, ast.Name):
                 return x.id in al
             if isinstance(x, ast.Attribute):
+                if x.attr in ("loc", "iloc", "at", "iat", "values", "array", "index", "columns"):
+                    return may_alias(x.value, al)       # indexers / views of an input write through to it
                 return ast.unparse(x) in al
             if isinstance(x, ast.IfExp):
                 return may_alias(x.body, al) or may_alias(x.orelse, al)
@@ -143,11 +146,36 @@ def c11_static(task):
             return False
 
         aliases = set(params)
-        for n in ast.walk(fn):  # source order is enough here: aliases only ever grow
-            if isinstance(n, ast.Assign) and may_alias(n.value, aliases):
-                for t in n.targets:
-                    if isinstance(t, (ast.Name, ast.Attribute)):
-                        aliases.add(ast.unparse(t))
+        # containers whose ELEMENTS are the caller's objects: the dict of extra frames and every shallow copy of it
+        elems = {p_ for p_ in params if p_ in ("additional_data", "kwargs")}
+
+        def elem_src(x):
+            if isinstance(x, ast.Name):
+                return x.id in elems
+            if isinstance(x, ast.Attribute):
+                return ast.unparse(x) in elems
+            if isinstance(x, ast.BoolOp):
+                return any(elem_src(v) for v in x.values)
+            if isinstance(x, ast.Call) and isinstance(x.func, ast.Attribute) and x.func.attr == "copy":
+                return elem_src(x.func.value)
+            if isinstance(x, ast.Call) and isinstance(x.func, ast.Name) and x.func.id == "dict" and len(x.args) == 1:
+                return elem_src(x.args[0])
+            return False
+
+        for _ in range(2):
+            for n in ast.walk(fn):  # source order is enough here: aliases only ever grow
+                if isinstance(n, ast.Assign) and elem_src(n.value):
+                    for t in n.targets:
+                        if isinstance(t, (ast.Name, ast.Attribute)):
+                            elems.add(ast.unparse(t))
+                if isinstance(n, ast.Assign) and (may_alias(n.value, aliases) or (isinstance(n.value, ast.Subscript) and elem_src(n.value.value))):
+                    for t in n.targets:
+                        if isinstance(t, (ast.Name, ast.Attribute)):
+                            aliases.add(ast.unparse(t))
+                if isinstance(n, ast.For) and isinstance(n.iter, ast.Call) and isinstance(n.iter.func, ast.Attribute) and n.iter.func.attr in ("items", "values") and elem_src(n.iter.func.value):
+                    tg = n.target.elts[-1] if isinstance(n.target, ast.Tuple) else n.target
+                    if isinstance(tg, ast.Name):
+                        aliases.add(tg.id)
         for n in ast.walk(fn):
             tgts = []
             if isinstance(n, ast.Assign):
@@ -165,6 +193,19 @@ def c11_static(task):
                 if n.func.attr in INPLACE or any(k.arg == "inplace" for k in n.keywords):
                     bad.append("in-place call %s at line %d" % (ast.unparse(n.func), n.lineno))
         out["results"].append(_ob("C11/%s/inputs-only-read" % q.split(".", 2)[-1], P, not bad, dict(writes=bad)))
+    # A-DEEPCOPY (copy.deepcopy gives a fully independent object graph) is only available while no class of the package customises copying
+    hooks = []
+    for mod in ("core", "algos", "backtest"):
+        for n in ast.walk(prog.trees[mod]):
+            if isinstance(n, ast.ClassDef):
+                for item in n.body:
+                    if isinstance(item, ast.FunctionDef) and item.name in ("__deepcopy__", "__copy__", "__reduce__", "__reduce_ex__", "__getstate__", "__setstate__"):
+                        hooks.append("%s.%s (bt/%s.py line %d)" % (n.name, item.name, mod, item.lineno))
+    r_ = _ob("C11/no-class-customises-copying(A-DEEPCOPY-applies)", P, not hooks, dict(hooks=hooks))
+    if hooks:
+        r_["verdict"] = "unknown"      # a custom copy protocol may be right; the independence of copies is then decided by the bounded stand-in only
+        r_["reason"] = "copy protocol customised by %s: the deep-copy assumption behind the isolation proof is not available" % ", ".join(hooks)
+    out["results"].append(r_)
     # universe kept by a strategy is a copy, never the caller's frame
     ssrc = ast.unparse(prog.func("bt.core.StrategyBase.setup").node)
     out["results"].append(_ob("C11/StrategyBase.setup/universe-is-copied", P, "funiverse = universe.copy()" in ssrc and "self._universe = funiverse" in ssrc, {}))
